@@ -251,7 +251,7 @@ func genC02Core(c *Ctx) {
 	for i := range gs {
 		gs[i] = genC02CoreJournal(c, c.R)
 	}
-	texts := leanPrint(gs)
+	texts := leanPrint(gs, nil)
 	for i, g := range gs {
 		c.Emit("c02.gcore", c02CoreCase(g, texts[i]))
 	}
